@@ -93,6 +93,7 @@ class Engine:
             self.pos = 0
             self.alts = []
             self.pc = []
+            self.ghost = {}          # ghost state (cost counters): name -> z3 Int term, per path
             self.counter = itertools.count()
             self.paths += 1
             if self.paths > self.max_paths:
@@ -729,7 +730,14 @@ class Engine:
                 raise Unsupported("%s: variable %r changes kind in the loop body (%s -> %s): split the type case" % (
                     text, n, ka.__name__, kb.__name__))
 
+    def ghost_get(self, name):
+        if name not in self.ghost:
+            self.ghost[name] = self.fresh("ghost_" + name, I)
+        return self.ghost[name]
+
     def havoc(self, frame, names, lc, pre_env, tnames, body=()):
+        for g in list(getattr(self, "ghost", {})):
+            self.ghost[g] = self.fresh("ghost_%s_loop" % g, I)      # a loop may advance any ghost counter: the invariant says how
         for n in self.mutated_names(body):
             if n in names:
                 continue
@@ -782,6 +790,10 @@ class Engine:
         self.spec_mode = True
         try:
             v = self.eval(tree, sframe)
+        except PyExc as pe:
+            # an exception while evaluating a CLAUSE is a defect of the contract (or of its fit to this function), never an
+            # exception of the program under verification -- whose own `except` would otherwise swallow it
+            raise ContractError("clause %r raised %s (%s)" % (text[:120], pe.exc.cls.name, pe.exc.origin))
         finally:
             self.spec_mode = saved
         if isinstance(v, (VBool, VInt, VNone, VStr, VSeq, VObj, VTup, VFloat, VCls, VRec, VDec, VOpaque, VMap, VDict, VExc, VFunc)):
@@ -1094,6 +1106,12 @@ class Engine:
                     for k2, (_, v2) in v.items.items():
                         kwargs[k2] = v2
                 elif isinstance(v, (VMap, VObj, VDict)):
+                    if isinstance(v, VMap):
+                        # f(**m): CPython raises TypeError("keywords must be strings") for a key that is not a str
+                        strcls = self.world.classes.of_py(str).t
+                        nonstr = self.exists(0, v.n, lambda i: z3.Not(sym.sub(sym.ty(z3.Select(v.keys, i)), strcls)), "i_kw")
+                        if self.branch(nonstr):
+                            self.throw("TypeError", node, origin="keywords-must-be-strings")
                     kwargs["__star_kwargs__"] = v      # understood by model-provided callables only
                 else:
                     raise Unsupported("call with **symbolic mapping")
